@@ -240,4 +240,33 @@ def c02_schedules(pid, tier, seed):
                 sample={"program": runs[0]["program"], "threads": runs[0]["threads"], "schedule": runs[0]["schedule"]})
 
 
+def final_state_clause(pid, tier, seed, families):
+    """Schedule clause of C01 / C02 / C03 / C16 (Linear.tla): small concurrent programs generated by TLC (MC_Linear) with preemption-bounded
+    schedules, run on the real code under the controlled scheduler; Trace_Linear requires the final terminal and getters to be those of
+    some sequential order of the same calls."""
+    q = tier == "quick"
+    runs = []
+    states = trans = 0
+    for famname, K, two1 in families:
+        wd = vlib.workdir("%s_linear_%s" % (pid, famname))
+        out, dist, gen = vlib.run_tlc("MC_Linear", vlib.cfg_text(dict(Family=famname, K=K, Two1=two1), invariants=["TypeOK"]), wd, workers=2)
+        states += dist
+        trans += gen
+        for h in vlib.histories_from(out):
+            h["program"] = "%s:%s" % (famname, "|".join(",".join(o["op"] for o in t) for t in h["threads"]))
+            runs.append(h)
+    if not runs:
+        raise vlib.ToolError("MC_Linear generated no program")
+    bad, st, total = vlib.replay_and_judge("%s_linear" % pid, runs, "sync", "Trace_Linear", shards=12)
+    byh = {r["h"]: r for r in runs}
+    fails = [dict(cls="%s/%s" % (v["rule"], byh[v["h"]]["program"]), rule=v["rule"], n=len(byh[v["h"]]["schedule"]), kf=[],
+                  what="rule=%s program=%s (concurrent calls, final state)" % (v["rule"], byh[v["h"]]["program"]),
+                  replay={"driver": "sync", "monitor": "Trace_Linear", "rule": v["rule"], "expected_lines": ["".join(chr(c) if 32 <= c < 127 else "<%d>" % c for c in l) for l in v.get("exp", [])],
+                          "history": byh[v["h"]]}) for v in bad]
+    if st.get("runs", 0) == 0 or st.get("switched", 0) == 0 or st.get("paints", 0) == 0:
+        raise vlib.ToolError("vacuous run of the final-state clause: %s" % st)
+    return dict(states=states, transitions=trans, runs=len(runs), records=total, stats=st, fails=fails,
+                sample={"program": runs[len(runs) // 2]["program"], "threads": runs[len(runs) // 2]["threads"], "schedule": runs[len(runs) // 2]["schedule"]})
+
+
 PROPS = {"C08": c08}
